@@ -59,7 +59,11 @@ def run(ctx):
                                   ("detailed", ["rand", s + 81, 400 if ctx.quick else 8000, 0], 200),
                                   ("dopt", ["rand", s + 82, 600 if ctx.quick else 12000, 0], 300),
                                   ("dplace", ["rand", s + 83, 3000 if ctx.quick else 50000], 2000),
-                                  ("rowleg", ["rand", s + 84, 5000 if ctx.quick else 100000], 4000)):
+                                  ("rowleg", ["rand", s + 84, 5000 if ctx.quick else 100000], 4000),
+                                  # the integer cores of global placement at the boundaries of the domains of the machine-integer
+                                  # theorems: Transportation1d balanceDemand+assign (|pos| <= 2^59, totals <= 2^61; and the rough
+                                  # legalizer's scale), TransportationProblem at the costsFromIntegers bound, DensityGrid on +-2^22
+                                  ("c07mag", [s + 85, 3000 if ctx.quick else 60000], 1000)):
             try:
                 n, b, smp = internal(ctx, v, name, args, chunk)
             except common.BuildError:
@@ -69,7 +73,7 @@ def run(ctx):
                 samples += [x[:300] for x in smp]
     for l, i, why in bad[:3]:
         ctx.violation("/repo violates C07: " + why, {"case": l, "implementation_output": i, "why": why,
-                                                     "format": "FL: harness/flow.cpp; LG: legal.cpp; DP: detailed.cpp; DO: dopt.cpp; DM: dplace.cpp; RL: rowleg.cpp"})
+                                                     "format": "FL: harness/flow.cpp; LG: legal.cpp; DP: detailed.cpp; DO: dopt.cpp; DM: dplace.cpp; RL: rowleg.cpp; M1/M2/M3: c07mag.cpp"})
     if not bad and not proof_ok:
         ctx.violation("proof obligations of Properties_C07.v do not check", {"broken": "Properties_C07.v", "detail": proof}, found_input=False)
     cov = dict(proof)
@@ -79,7 +83,8 @@ def run(ctx):
                 "rule": "three streams of harness/flow.cpp (general; magnitude: site/row sizes up to 2^18, coordinates to +-2^22, cell area < 2^31; degenerate: single row, single "
                         "cell, no nets, degree-1 nets, all pins on one cell, zero-size fixed terminals, all fixed but one, infeasible density), every circuit has a movable cell of "
                         "positive area; stages global/legalize/detailed/full flow, efforts 1-4, 4 net models, seeds; plus the legal/detailed/dopt/dplace/rowleg harness streams "
-                        "in the same sanitizer build. non-trivial = the process survived the case (every case exercises an entry point); distinct = generated case lines",
+                        "in the same sanitizer build, and harness/c07mag.cpp (1-D transportation balanceDemand+assign with positions to +-2^59 and totals to 2^61 / at the "
+                        "rough legalizer's scale, TransportationProblem with integer costs at INT_MAX/(4 sinks), DensityGrid on regions inside +-2^22). non-trivial = the process survived the case (every case exercises an entry point); distinct = generated case lines",
                 "variants": variants, "per_variant": per,
                 "samples": samples[:6], "impl_outputs_violating_statement": len(bad)})
     return ctx.finish(LEVEL, cov, ["sanitizer observation is not a proof: it covers the generated cases only",
@@ -89,10 +94,11 @@ def run(ctx):
 def replay(ctx, path):
     r = json.load(open(path))["replay"]
     case = r["case"]
-    name = {"FL": "flow", "LG": "legal", "DP": "detailed", "DO": "dopt", "DM": "dplace", "RL": "rowleg"}[case[:2]]
+    name = {"FL": "flow", "LG": "legal", "DP": "detailed", "DO": "dopt", "DM": "dplace", "RL": "rowleg",
+            "M1": "c07mag", "M2": "c07mag", "M3": "c07mag"}[case[:2]]
     m = re.search(r"\[(\S+) build", r.get("why", ""))
     variant = m.group(1) if m else "asan"
     h = common.build_harness(name, variant)
     impl, _, _ = common.run_both([h, "run"], None, [case], timeout=600)
     print("case:", case); print("impl (%s):" % variant, impl[0])
-    return 1 if (impl[0].startswith("DIED") or "ABORT" in impl[0] or "SEGV" in impl[0]) else 0
+    return 1 if (impl[0].startswith("DIED") or "ABORT" in impl[0] or "SEGV" in impl[0] or impl[0] == "<missing>") else 0
